@@ -31,7 +31,7 @@ def build(tier, seed):
                 assumptions=["the decorations are ASCII (decryption-secrets blocks are ASCII by definition)"])
 
 
-def deliveries(rng, lines, quic, thorough):
+def deliveries(rng, lines, quic, thorough, big=False):
     """yield (label, keyfile bytes or None, dsb placement list [(position, bytes)], opts) ; position: 'before' | 'after' | int index"""
     L = list(lines)
     text = lambda ls, eol="\n": (eol.join(ls) + eol).encode()
@@ -108,6 +108,27 @@ def deliveries(rng, lines, quic, thorough):
         out.append(("dsb-between", None, [(None, text(L))], {}))
         out.append(("dsb-between-split", None, [(None, text(L[:1])), ("after", text(L[1:]) if L[1:] else b"#\n")], {}))
         out.append(("dsb-after-no-s", None, [("after", text(L))], {"no_s": True, "cwd": "/"}))
+    if big:
+        # a long-lived key log (a browser's SSLKEYLOGFILE of a working day): the connection's lines somewhere among thousands of other connections' lines - as a file,
+        # as one block of several hundred kilobytes (a secrets block is not bounded by the snap length), and as a few blocks
+        nl = rng.choice([2300, 3000] + ([9000] if thorough else []))
+        other = []
+        while len(other) < nl:
+            r = rng.randbytes(32).hex()
+            if rng.random() < 0.5:
+                other.append(f"CLIENT_RANDOM {r} {rng.randbytes(48).hex()}")
+            else:
+                other += [f"{lab} {r} {rng.randbytes(32).hex()}" for lab in ("CLIENT_HANDSHAKE_TRAFFIC_SECRET", "SERVER_HANDSHAKE_TRAFFIC_SECRET", "CLIENT_TRAFFIC_SECRET_0", "SERVER_TRAFFIC_SECRET_0")]
+        pos = sorted(rng.randrange(len(other) + 1) for _ in L)
+        biglog = list(other)
+        for j, (p_, l) in enumerate(zip(pos, L)):
+            biglog.insert(p_ + j, l)
+        out.append((f"big-log-file-{nl}", text(biglog), [], {}))
+        out.append((f"big-log-one-dsb-{nl}", None, [("before", text(biglog))], {}))
+        third = len(biglog) // 3
+        out.append((f"big-log-three-dsbs-{nl}", None, [("before", text(biglog[:third])), ("before", text(biglog[third:2 * third])), ("before", text(biglog[2 * third:]))], {}))
+        if not quic:
+            out.append((f"big-log-one-dsb-after-{nl}", None, [("after", text(biglog))], {}))
     return out
 
 
@@ -140,7 +161,7 @@ def eval_case(case, rng, thorough):
     ab = outparse.Analysis(base.out)
     nontrivial = bool(ab.pkts)
     bad, classes, units = [], set(), 0
-    dlist = deliveries(rng, lines, quic, thorough)
+    dlist = deliveries(rng, lines, quic, thorough, big=not case.get("real") and case.get("i", 1) % 4 == 0)
     if not case.get("real") and len(flows) > 1:
         # one DSB per connection, each placed right in front of its own connection's first packet (a capture put together connection by connection): every DSB
         # is "before the packets" of the connection it serves, but behind the handshakes of the connections before it
